@@ -361,7 +361,15 @@ func genC01(t *rapid.T) C01Case {
 		eng := rapid.IntRange(0, nw-1).Draw(t, "eng")
 		names := sortedTemplateNames(c.Worlds[eng])
 		op := C01Op{Eng: eng}
-		switch k := rapid.IntRange(0, 28).Draw(t, "opkind"); {
+		switch k := rapid.IntRange(0, 29).Draw(t, "opkind"); {
+		case k == 29:
+			// a template that includes (extends) a name is rendered, the name is registered again
+			// with another source, the includer is rendered again
+			pair := rapid.SampledFrom([][2]string{{"x_nest_b", "x_plain"}, {"x_nest_a", "x_nest_b"}, {"x_sbx_inc", "x_upper"}, {"d/x_rel_inc", "d/x_rel_base"}}).Draw(t, "incpair")
+			c.Ops = append(c.Ops, C01Op{Op: "render", Eng: eng, Name: pair[0], Ctx: eng},
+				C01Op{Op: "register", Eng: eng, Name: pair[1], Src: rapid.SampledFrom([]string{"again {{ 1 + 1 }}", "AGAIN[{% block b %}x{% endblock %}]", "again{% for i in [1, 2] %}{{ i }}{% endfor %}"}).Draw(t, "againsrc"), N: rapid.IntRange(0, 2).Draw(t, "route")},
+				C01Op{Op: "render", Eng: eng, Name: pair[0], Ctx: eng}, C01Op{Op: "render", Eng: eng, Name: pair[0], Ctx: eng})
+			continue
 		case k == 28:
 			// a writer that breaks in the middle of one render, then renders into healthy writers
 			nm := rapid.SampledFrom([]string{"x_big", "main", "x_nest_a", "x_plain"}).Draw(t, "brokenname")
@@ -493,7 +501,7 @@ func genC01(t *rapid.T) C01Case {
 	return c
 }
 
-const c01Rule = "histories of 5-40 (thorough 200) operations over 1-3 engines, each holding a template set from the structural generators (control flow, inheritance with parent(), include chains, macro libraries in five call forms, apply/spaceless) plus failing templates (syntax error, unclosed tag, include of a missing template, include of a broken template, division by zero) and a template above 4096 bytes; operations: Render / RenderTo (into a writer that has only Write) / Load+Render, a RenderTo whose writer breaks part-way followed by renders into healthy writers, bursts of up to 130 renders of one template, repeat of the previous call, ParseTemplate+Render of valid, invalid, small and > 4096-byte sources (also of other engines' sources), RegisterString / LoadFromCompiledData / RegisterTemplate (also of names whose lookup failed or was ignored earlier, of a name whose old handle is still held, and of the parent behind a relative extends/include), a struct reached by value and by pointer in separate templates, templates with escaped string literals around a parse of other escaped literals, SetCache, SetDebug, AddGlobal / AddFunction / AddFilter / a relaxed default policy of its own on one of the engines (the others must not see it), a template whose filter arguments come from the context rendered with several contexts, runtime.GC once or twice; after every render the result is compared with a pristine engine in a fresh OS process; non-trivial = the checked render is preceded by a render of the same cached template, a failing render or a GC; distinct by history"
+const c01Rule = "histories of 5-40 (thorough 200) operations over 1-3 engines, each holding a template set from the structural generators (control flow, inheritance with parent(), include chains, macro libraries in five call forms, apply/spaceless) plus failing templates (syntax error, unclosed tag, include of a missing template, include of a broken template, division by zero) and a template above 4096 bytes; operations: Render / RenderTo (into a writer that has only Write) / Load+Render, a RenderTo whose writer breaks part-way followed by renders into healthy writers, bursts of up to 130 renders of one template, repeat of the previous call, ParseTemplate+Render of valid, invalid, small and > 4096-byte sources (also of other engines' sources), RegisterString / LoadFromCompiledData / RegisterTemplate (also of names whose lookup failed or was ignored earlier, of a name whose old handle is still held, of a name that a template rendered before includes, and of the parent behind a relative extends/include), a struct reached by value and by pointer in separate templates, templates with escaped string literals around a parse of other escaped literals, SetCache, SetDebug, AddGlobal / AddFunction / AddFilter / a relaxed default policy of its own on one of the engines (the others must not see it), a template whose filter arguments come from the context rendered with several contexts, runtime.GC once or twice; after every render the result is compared with a pristine engine in a fresh OS process; non-trivial = the checked render is preceded by a render of the same cached template, a failing render or a GC; distinct by history"
 
 func TestC01History(t *testing.T) {
 	r := NewRec(t, "C01", c01Rule)
